@@ -126,3 +126,40 @@ impl<T: RealNumber, D: Distance<Vec<T>, T>> G<T, D> {
         }
     }
 }
+
+// ---------------------------------------------------------------------------------------------
+// All points visited: the two invariants give the postconditions of fit (quantified over the final state, so that the hint
+// can be given at function entry; see the end of fit_defs.rs).
+// ---------------------------------------------------------------------------------------------
+impl<T: RealNumber, D: Distance<Vec<T>, T>> G<T, D> {
+    pub open spec fn fit_post(self, y: Seq<i16>, k: int) -> bool {
+        &&& y.len() == self.n() && 0 <= k <= self.n() && self.n() <= i16::MAX
+        &&& self.labels_ok(y, k)
+        &&& all_used(y, k)
+        &&& self.cores_clustered(y)
+        &&& self.adjacent_cores_agree(y)
+        &&& self.connected_cores_agree(y)
+        &&& self.same_label_connected(y)
+        &&& self.numbered_by_first_core(y, k)
+        &&& self.border_takes_core_label(y)
+        &&& self.noise_unreachable(y)
+        &&& self.unreachable_noise(y)
+        &&& self.core_spec(y, k)
+    }
+    pub proof fn lemma_final_q(self)
+        requires self.sym(),
+        ensures
+            forall|y: Seq<i16>, k: int, seeds: Seq<int>| #![trigger self.inv_outer(y, self.n(), k), self.conn_ok(y, seeds)]
+                self.inv_outer(y, self.n(), k) && self.conn_ok(y, seeds) && seeds.len() == k ==> self.fit_post(y, k),
+    {
+        assert forall|y: Seq<i16>, k: int, seeds: Seq<int>| #![trigger self.inv_outer(y, self.n(), k), self.conn_ok(y, seeds)]
+            self.inv_outer(y, self.n(), k) && self.conn_ok(y, seeds) && seeds.len() == k implies self.fit_post(y, k) by {
+            self.lemma_outer_basic(y, self.n(), k);
+            self.lemma_final(y, k);
+            self.lemma_conn_final(y, seeds);
+            assert forall|c: int| 0 <= c < k implies #[trigger] self.has_first_core(y, c) by {
+                assert(self.first_core_of(y, seeds[c], c));
+            }
+        }
+    }
+}
